@@ -18,7 +18,7 @@ extern "C" {
 
 #define VS_MAXP 2048   /* max recorded choice points per execution */
 #define VS_MAXE 4096   /* max events per execution */
-#define VS_MAXT 16     /* max controlled threads per execution */
+#define VS_MAXT 64     /* max controlled threads per execution */
 #define VS_NCELL 64
 
 /* outcomes of one execution */
@@ -91,6 +91,7 @@ long vs_cell_add(int i, long d);                /* returns the new value */
 void vs_clock_advance_ms(long ms);              /* virtual clock seen through clock_gettime */
 long vs_clock_ms(void);
 const struct vs_ev *vs_log(int *n);
+int  vs_thread_finished(int tid);               /* 1 iff that controlled thread has run to its end */
 int  vs_thread_waiting(int tid);                /* 1 iff that thread is blocked on a condition variable now */
 void vs_block_until(int (*pred)(void *), void *arg); /* calling thread is disabled until pred(arg) != 0 (evaluated by the scheduler) */
 void vs_note(const char *s);                    /* annotation appended to a deadlock message, e.g. the phase of the owner script */
